@@ -6,6 +6,8 @@ The structural predicates are evaluated on the DUMPED matrix so that a mismatch 
 import LdpcV.Model.Proto
 import LdpcV.Model.Dvbs2
 import LdpcV.Spec.Dvbs2Tables
+import LdpcV.Model.Ccsds
+import LdpcV.Spec.CcsdsTables
 namespace LdpcV.Driver.C06
 open LdpcV.Proto LdpcV.Dvbs2
 
@@ -58,3 +60,79 @@ def handle (inp out : List String) : String :=
   | _, _ => "BADLINE c06 arity"
 
 end LdpcV.Driver.C06
+
+namespace LdpcV.Driver.C07
+open LdpcV.Proto LdpcV.Ccsds
+
+def tables : Tables := ⟨CcsdsTables.theta, CcsdsTables.phi⟩
+
+def rateIdx : String → Option Nat
+  | "R1_2" => some 0 | "R2_3" => some 1 | "R4_5" => some 2 | _ => none
+
+/-- M from CCSDS 131.0-B Table 7-2 (the expected values, written independently of the Rust table) -/
+def standardM : String → Nat → Option Nat
+  | "R1_2", 1024 => some 512 | "R2_3", 1024 => some 256 | "R4_5", 1024 => some 128
+  | "R1_2", 4096 => some 2048 | "R2_3", 4096 => some 1024 | "R4_5", 4096 => some 512
+  | "R1_2", 16384 => some 8192 | "R2_3", 16384 => some 4096 | "R4_5", 16384 => some 2048
+  | _, _ => none
+
+def log2 (n : Nat) : Nat := (List.range 20).find? (fun l => 2 ^ l == n) |>.getD 0
+
+def showSorted (cols : Array (List Nat)) : String := showLL cols.toList
+
+/-- structural classification of a dumped AR4JA matrix -/
+def classifyAr4ja (rate : String) (k nr nc : Nat) (rows : List (List Nat)) : Option String :=
+  match standardM rate k, rateIdx rate with
+  | some m, some ri =>
+    if nr ≠ 3 * m then some "row-count-not-3M"
+    else if nc ≠ k + 3 * m then some "column-count-not-k-plus-3M"
+    else if rows.length ≠ nr then some "row-list-count"
+    else
+      let cols := colsOfRows nc rows
+      -- block-column degrees of the protograph (punctured block = last-but-... the block with degree 6)
+      let nb := nc / m
+      let degs := (List.range nb).map (fun b => ((List.range m).map (fun i => (cols.getD (b * m + i) []).length)).eraseDups)
+      -- AR4JA protograph block-column degrees: every extra information block 4 (3 edges to one check, 1 to the other);
+      -- base blocks 2, 3, 1, 3, 6 (the last one is the punctured block)
+      let expect := (List.replicate (extraBlocks ri) [4]) ++ [[2], [3], [1], [3], [6]]
+      if degs ≠ expect then some s!"block-column-degree-profile {degs}"
+      else
+        let tail := rankBits (rows.map (fun r => bitsOfRow r (nc - nr) nc))
+        if tail ≠ nr then some "last-3M-columns-singular" else none
+  | _, _ => some "unknown-rate-or-size"
+
+def handle (inp out : List String) : String :=
+  match inp, out with
+  | ["ar4ja", rate, k], [nr, nc, rs, cs] =>
+    match rateIdx rate, k.toNat?, nr.toNat?, nc.toNat?, parseLL rs with
+    | some ri, some k, some nr, some nc, some rowsI =>
+      match standardM rate k with
+      | some m =>
+        let mlog := log2 m
+        let rows := ar4jaRows tables ri mlog
+        let ncM := ar4jaNcols ri mlog
+        let model := [toString (3 * m), toString ncM, showLL rows, showSorted (colsOfRows ncM rows)]
+        let prop := match classifyAr4ja rate k nr nc rowsI with
+          | some p => some p
+          | none => if model ≠ [toString nr, toString nc, rs, cs] then some "differs-from-pinned-reference-matrix" else none
+        verdict (model.take 2) (out.take 2) prop
+      | none => "BADLINE c07 size"
+    | _, _, _, _, _ => "BADLINE c07 parse"
+  | ["c2"], [nr, nc, rs, cs] =>
+    let rows := c2Rows CcsdsTables.c2
+    let model := ["1022", "8176", showLL rows, showSorted (colsOfRows 8176 rows)]
+    let prop : Option String :=
+      match parseLL rs with
+      | some rowsI =>
+        let cols := colsOfRows 8176 rowsI
+        if nr ≠ "1022" ∨ nc ≠ "8176" then some "C2-dimensions"
+        else if !(rowsI.all (fun r => r.length == 32)) then some "C2-row-weight-not-32"
+        else if !(cols.all (fun c => c.length == 4)) then some "C2-column-weight-not-4"
+        else if rankBits (rowsI.map (fun r => bitsOfRow r 0 8176)) ≠ 1020 then some "C2-rank-not-1020"
+        else if !(Dvbs2.noFourCycles 8176 rowsI) then some "C2-cycle-of-length-4"
+        else if model ≠ [nr, nc, rs, cs] then some "differs-from-pinned-reference-matrix" else none
+      | none => some "unparsable"
+    verdict (model.take 2) (out.take 2) prop
+  | _, _ => "BADLINE c07 arity"
+
+end LdpcV.Driver.C07
